@@ -424,6 +424,13 @@ pub fn cases(tier: &str, seed: u64, focus: &str) -> Vec<EncCase> {
     let reps = if focus == "C16" { 3 } else { 1 };
     for s in &env {
         push_cfgs(&mut out, &mut rng, &g, "envelope", s, reps, focus);
+        // the tightest single symbol for the COMPACTED message (the envelope's nine bytes become one codeword)
+        if focus != "C10" && s.len() >= 9 && (s.starts_with(MACRO05_HEAD) || s.starts_with(MACRO06_HEAD)) && s.ends_with(MACRO_TRAIL) {
+            let need = 1 + ascii_size(&s[7..s.len() - 2]);
+            if let Some(sz) = g.sizes.iter().find(|z| capacity_of(**z) >= need) {
+                out.push(EncCase { order: [0, 1, 2, 3], stratum: "envelopeTight", input: s.clone(), modes: 63, list: vec![*sz], macros: true, fnc1: false, eci: -1 });
+            }
+        }
     }
     out
 }
